@@ -1,4 +1,5 @@
 import FitProps.DecProgLemmas
+import FitProps.DecHistLemmas
 /-!
 # C08 — Decoding is independent of how the reader fragments the stream
 
@@ -293,5 +294,71 @@ what the exact-n reader over the byte string gives: here even the end-of-stream 
 theorem C08_raw_chunk_indep {α : Type} (p : Prog α) (s₁ s₂ : Sched) (h₁ : Clean s₁) (h₂ : Clean s₂)
     (heq : bytesOf s₁ = bytesOf s₂) : runFull p s₁ = runFull p s₂ := by
   rw [runFull_eq_exact p s₁ h₁, runFull_eq_exact p s₂ h₂, heq]
+
+/-! ## every entry point, every history of calls (FitModel/DecHist.lean)
+
+`DecHist.history chk fuelCi ops` is the decoder object of `decoder.New(r, opts)` driven through the calls `ops` — `Decode`,
+`DecodeWithContext` (context live / cancelled before the call / cancelled after k records of the call), `PeekFileHeader`,
+`PeekFileId`, `Discard`, `Next`, and a final `CheckIntegrity` — as a client of the read buffer. `Reset` onto a new reader and
+the re-seek after `CheckIntegrity` start a new program on `b.reset s size` for the buffer state `b` they find: the theorems
+hold from ANY such `b`. -/
+
+/-- the calls `ops` on the decoder of `decoder.New(r, WithReadBufferSize(size))`, `r` delivering `s` -/
+def histOver (chk : Bool) (fuelCi : Nat) (ops : List Fit.DecHist.Op) (s : Sched) (size : Int) : Outcome Fit.DecHist.Out :=
+  runRB (Fit.DecHist.history chk fuelCi ops) (RB.fresh s size)
+
+/-- REQUEST BOUND for every history: whatever is called in whatever order, every `ReadN` the decoder issues asks for at most
+`reservedbuf` bytes, and a request cut short by the end of the stream ends the reading at once (the error is sticky) -/
+theorem C08_request_bound_ops (chk : Bool) (fuelCi : Nat) (ops : List Fit.DecHist.Op) :
+    Good Fit.DecHist.Out.merge reservedbuf (Fit.DecHist.history chk fuelCi ops) :=
+  (Fit.DecHist.s_history chk fuelCi ops).good
+
+/-- **CHUNK INDEPENDENCE OF EVERY HISTORY OF CALLS.** For every list of calls, any two clean fragmentations of the same bytes
+(any partition into short reads, down to one byte at a time, zero-length reads, EOF with or after the last bytes), any two
+read-buffer sizes and any two previous states of the buffer (a decoder re-used through `Reset`): nothing panics, and every
+call returns the same — FIT header / CRC / message count, file header, "file_id found", nil, `Next`'s bool, the verdict of
+`CheckIntegrity`, error — with the same listener events (definitions; messages with the bytes of every field), where the two
+end-of-stream errors count as one class (KF-C08-1); and EXACTLY the same when the stream does not end inside a request. -/
+theorem C08_chunk_indep_ops (chk : Bool) (fuelCi : Nat) (ops : List Fit.DecHist.Op) (b₁ b₂ : RB) (s₁ s₂ : Sched)
+    (size₁ size₂ : Int) (h₁ : Clean s₁) (h₂ : Clean s₂) (hb : IsBytes (bytesOf s₁)) (heq : bytesOf s₁ = bytesOf s₂) :
+    ∃ o₁ o₂, runRB (Fit.DecHist.history chk fuelCi ops) (b₁.reset s₁ size₁) = .done o₁ ∧
+      runRB (Fit.DecHist.history chk fuelCi ops) (b₂.reset s₂ size₂) = .done o₂ ∧ o₁.merge = o₂.merge ∧
+      (truncated (Fit.DecHist.history chk fuelCi ops) (bytesOf s₁) = false → o₁ = o₂) := by
+  have hg := C08_request_bound_ops chk fuelCi ops
+  obtain ⟨o₁, e₁, m₁, x₁⟩ := runRB_refines Fit.DecHist.Out.merge _ hg _ _ (reset_inv b₁ s₁ size₁) h₁ hb
+  obtain ⟨o₂, e₂, m₂, x₂⟩ := runRB_refines Fit.DecHist.Out.merge _ hg _ _ (reset_inv b₂ s₂ size₂) h₂ (heq ▸ hb)
+  exact ⟨o₁, o₂, e₁, e₂, by rw [m₁, m₂, heq], fun hnt => by rw [x₁ hnt, x₂ (heq ▸ hnt), heq]⟩
+
+theorem clean_contiguous (bs : Bytes) : Clean (contiguous bs) := by simp [Clean, cleanB, contiguous]
+theorem bytesOf_contiguous (bs : Bytes) : bytesOf (contiguous bs) = bs := by simp [bytesOf, contiguous]
+
+/-- … in the form of the property: every clean fragmentation and buffer size give the per-call outcomes of the contiguous
+reader (`bytes.NewReader`) with the default buffer size -/
+theorem C08_chunk_indep_ops_contiguous (chk : Bool) (fuelCi : Nat) (ops : List Fit.DecHist.Op) (s : Sched) (size : Int)
+    (hs : Clean s) (hb : IsBytes (bytesOf s)) :
+    ∃ o r, histOver chk fuelCi ops s size = .done o ∧
+      histOver chk fuelCi ops (contiguous (bytesOf s)) (defaultReadBufferSize : Int) = .done r ∧ o.merge = r.merge ∧
+      (truncated (Fit.DecHist.history chk fuelCi ops) (bytesOf s) = false → o = r) :=
+  C08_chunk_indep_ops chk fuelCi ops RB.zero RB.zero s (contiguous (bytesOf s)) size _ hs (clean_contiguous _) hb
+    (bytesOf_contiguous _).symm
+
+/-- **READER FAILURES ARE RETURNED, whatever is called.** Over ANY reader and buffer: if `ReadN` hands the decoder a failure of
+the reader during some call of the history, no further byte is requested and that failure is the decoder's error at the
+end (`d.err`, which every later call returns; after a swallowing `Next()` the following call; for `CheckIntegrity` its verdict). -/
+theorem C08_reader_error_ops (chk : Bool) (fuelCi : Nat) (ops : List Fit.DecHist.Op) (b : RB) (s : Sched) (size : Int)
+    (hb : IsBytes (bytesOf s)) (e : RErr)
+    (h : firstReaderErr (Fit.DecHist.history chk fuelCi ops) (b.reset s size) = some e) :
+    ∃ o, runRB (Fit.DecHist.history chk fuelCi ops) (b.reset s size) = .done o ∧ o.err = some (.dec (.io e)) := by
+  obtain ⟨o, ho, hq⟩ := (Fit.DecHist.s_history chk fuelCi ops).keeps _ _ (reset_inv b s size) hb e h
+  exact ⟨o, ho, hq (firstReaderErr_isFailure _ _ e h)⟩
+
+/-- non-vacuity: on the complete one-record file the history PeekFileHeader, PeekFileId, Discard, Next, Decode over the
+one-byte-at-a-time reader with the smallest buffer returns what it returns over the contiguous reader — a header, "no
+file_id", nil, and (the stream is exhausted) `Next` = false with the sticky end-of-stream error for `Decode` -/
+example : histOver false 3 [.peekHeader, .peekFileId, .discard, .next, .decode] ((kfBytes ++ [9]).map fun b => ⟨[b], none⟩) 0 =
+      histOver false 3 [.peekHeader, .peekFileId, .discard, .next, .decode] (contiguous (kfBytes ++ [9])) 4096 ∧
+    (match histOver false 3 [.peekHeader, .peekFileId, .discard, .next, .decode] (contiguous (kfBytes ++ [9])) 4096 with
+      | .done o => o.res.drop 1 | .panic => []) = [.fileId false, .done, .bool false, .err (.dec (.io .eof))] := by
+  decide +kernel
 
 end Fit.C08
